@@ -400,6 +400,14 @@ class SpecGen:
         roll = rnd.random()
         if depth >= 2:
             return self.atom()
+        if k.get('boost') and depth == 0 and rnd.random() < k['boost']:
+            # (swarm) some checks want much more of the context-sensitive forms
+            if rnd.random() < 0.5 and k['ranges']:
+                ro = self.range_operand()
+                if ro and ' ' not in ro[0]:
+                    fn = rnd.choice(('IFERROR', 'IFERROR', 'IFNA'))
+                    return f'{fn}({ro[0]},{rnd.choice((-1, 5, 0))})', [], ro[1]
+            return rnd.choice(('ROW()*10', 'COLUMN()*10', 'ROW()*10', 'ROW()+COLUMN()')), [], ['@self']
         if roll < 0.28:
             a, pa, da = self.expr(depth + 1) if rnd.random() < 0.3 else self.atom()
             b, pb, db = self.atom()
@@ -554,7 +562,13 @@ class SpecGen:
                     kinds = ('num', 'float') if lead else k['const_kinds']
                     self.add({'a': a, 'v': draw_const(rnd, kinds)})
                 else:
-                    f, p, d = self.formula()
+                    prev = self.cells[-1] if self.cells else None
+                    if (prev and prev.get('f') in ('=ROW()*10', '=COLUMN()*10', '=ROW()+COLUMN()')
+                            and wbgen_same_sheet(prev['a'], a) and rnd.random() < 0.6):
+                        # the same text in the neighbouring cell (a numbering column)
+                        f, p, d = prev['f'], [], []
+                    else:
+                        f, p, d = self.formula()
                     cell = {'a': a, 'f': f, 'p': p, 'd': d}
                     if self.ranges_used:
                         cell['r'] = uniq(self.ranges_used)
@@ -565,7 +579,7 @@ class SpecGen:
                     self.add_name()
                 # a CSE block now and then, to the right of the grid
                 if (k['cse'] and k['ranges'] and n_cse < 2 and i >= 3 and
-                        rnd.random() < 0.12):
+                        rnd.random() < k.get('p_cse', 0.12)):
                     if self.add_cse(sheet, n_cse):
                         n_cse += 1
         spec = {
@@ -627,6 +641,9 @@ class SpecGen:
             fcells = [c['a'] for c in self.cells if 'f' in c and 'cse' not in c and
                       split_addr(c['a'])[0] == sheet]
             a = rnd.choice(fcells) if fcells and rnd.random() < 0.8 else self.pick_cell()
+            ctx = [x for x in fcells if 'IFERROR' in self.by_addr[x]['f'] or 'IFNA' in self.by_addr[x]['f']]
+            if ctx and rnd.random() < 0.7:
+                a = rnd.choice(ctx)     # a cell whose value depends on the array context
             f = f'={src_txt}*10+{self.ref_text(a)}'
             prec = list(src) + [a]
         elif kind == 'scalar':
@@ -658,6 +675,10 @@ class SpecGen:
         return True
 
 
+def wbgen_same_sheet(a, b):
+    return split_addr(a)[0] == split_addr(b)[0]
+
+
 def uniq(seq):
     out = []
     for x in seq:
@@ -667,7 +688,36 @@ def uniq(seq):
 
 
 def generate(rnd, knobs=None):
-    return SpecGen(rnd, knobs).generate()
+    spec = SpecGen(rnd, knobs).generate()
+    if knobs and knobs.get('gadget') and rnd.random() < knobs['gadget']:
+        add_context_gadget(rnd, spec)
+    return spec
+
+
+def add_context_gadget(rnd, spec):
+    """an array formula that reads a plain cell whose function asks 'am I inside an array
+    formula?', plus a numbering column: structures whose value depends on the context and the
+    place they are evaluated in (rows 25.. of the first formula sheet)"""
+    sheet = next(s for s in spec['sheets'] if s != spec.get('data_sheet'))
+    r0 = 25
+    vals = [rnd.choice((1, 2, 3, 5, 0.5, -4)) for _ in range(3)]
+    src = [mk(sheet, r0 + i, 1) for i in range(3)]
+    for a, v in zip(src, vals):
+        spec['cells'].append({'a': a, 'v': v})
+    d = mk(sheet, r0, 4)
+    fn = rnd.choice(('IFERROR', 'IFNA'))
+    spec['cells'].append({'a': d, 'f': f'={fn}(A{r0}:A{r0 + 2},{rnd.choice((-1, 7))})',
+                          'p': [], 'd': list(src)})
+    ref = f'{sheet}!B{r0}:B{r0 + 2}'
+    for i in range(3):
+        spec['cells'].append({'a': mk(sheet, r0 + i, 2), 'cse': ref,
+                              'f': f'=A{r0}:A{r0 + 2}+D{r0}', 'p': list(src) + [d], 'd': []})
+    spec['cells'].append({'a': mk(sheet, r0, 5), 'f': f'=SUM(B{r0}:B{r0 + 2})+D{r0}',
+                          'p': [mk(sheet, r0 + i, 2) for i in range(3)] + [d], 'd': []})
+    for i in range(2):
+        spec['cells'].append({'a': mk(sheet, r0 + 1 + i, 5), 'f': '=ROW()*10', 'p': [], 'd': []})
+    spec.setdefault('gadget', []).extend([d, mk(sheet, r0 + 1, 2), mk(sheet, r0, 5),
+                                          mk(sheet, r0 + 1, 5), mk(sheet, r0 + 2, 5)])
 
 
 # ---------------------------------------------------------------------------
